@@ -88,7 +88,15 @@ func spec(nonce int) []byte {
 				"responses": map[string]any{"204": map[string]any{"description": "gone"}}},
 		},
 		"/items": map[string]any{"get": map[string]any{"responses": map[string]any{"default": map[string]any{"description": "d"}}}},
-	}, map[string]any{"schemas": map[string]any{"Item": item},
+		// one schema behind a JSON and a multipart body; its additionalProperties schema has properties of its own
+		"/upload": map[string]any{"post": map[string]any{
+			"requestBody": map[string]any{"required": true, "content": map[string]any{
+				"application/json":    map[string]any{"schema": map[string]any{"$ref": "#/components/schemas/Form"}},
+				"multipart/form-data": map[string]any{"schema": map[string]any{"$ref": "#/components/schemas/Form"}}}},
+			"responses": map[string]any{"200": map[string]any{"description": "ok"}}}},
+	}, map[string]any{"schemas": map[string]any{"Item": item,
+		"Form": map[string]any{"type": "object", "properties": map[string]any{"name": map[string]any{"type": "string"}},
+			"additionalProperties": map[string]any{"type": "object", "properties": map[string]any{"label": map[string]any{"type": "string"}}}}},
 		"headers": map[string]any{"Meta": map[string]any{"content": map[string]any{"application/json": map[string]any{"schema": map[string]any{"type": "object", "properties": map[string]any{"v": map[string]any{"type": "integer"}}}}}}}})
 	b, _ := json.Marshal(doc)
 	return b
@@ -166,6 +174,17 @@ func (w *world) request(variant int) *http.Request {
 		q = "?lim=5"
 	} else if variant%3 == 2 {
 		q = "?lim=500"
+	}
+	switch variant % 11 {
+	case 9:
+		req, _ := http.NewRequest("POST", "http://localhost/upload", strings.NewReader(`{"name":"n","label":{"label":"l"}}`))
+		req.Header.Set("Content-Type", "application/json")
+		return req
+	case 10:
+		body := "--XbX\r\nContent-Disposition: form-data; name=\"name\"\r\n\r\nn\r\n--XbX--\r\n"
+		req, _ := http.NewRequest("POST", "http://localhost/upload", strings.NewReader(body))
+		req.Header.Set("Content-Type", "multipart/form-data; boundary=XbX")
+		return req
 	}
 	switch variant % 5 {
 	case 3:
